@@ -53,8 +53,10 @@ def listSpec (gs : List GSeg) (st fin : Option Int) (impl : String) : String :=
     (body.splitOn ";").filterMap fun e => match e.splitOn "+" with
       | [a, b] => match a.toInt?, b.toInt? with | some a, some b => some (a, b) | _, _ => none
       | _ => none
+  -- `WF` of Props/C29: ends and starts non-decreasing, non-merged neighbours do not overlap
   let rec wfl : List Seg → Bool
-    | a :: b :: r => decide (0 ≤ a.dur) && decide (a.start + a.dur ≤ b.start) && wfl (b :: r)
+    | a :: b :: r => decide (0 ≤ a.dur) && decide (a.start ≤ b.start) && decide (a.start + a.dur ≤ b.start + b.dur) &&
+        (canConcat a b || decide (a.start + a.dur ≤ b.start)) && wfl (b :: r)
     | [a] => decide (0 ≤ a.dur)
     | [] => true
   let wf0 := wfl (sortSegs (gs.map (·.seg)))
@@ -65,7 +67,7 @@ def listSpec (gs : List GSeg) (st fin : Option Int) (impl : String) : String :=
     (match st with | some s => decide (s ≤ a) | none => true) &&
     (match fin with | some e => decide (a + d ≤ e) || decide (d < 0) | none => true)
   -- coverage: every recorded segment's interval, clipped to the window, lies inside some span
-  let covered := gs.all fun g =>
+  let covered := !wf0 || gs.all fun g =>
     let a := match st with | some s => max s g.seg.start | none => g.seg.start
     let b := match fin with | some e => min e (g.seg.start + g.seg.dur) | none => g.seg.start + g.seg.dur
     decide (a > b) || es.any (fun (x, d) => decide (x ≤ a ∧ b ≤ x + d))
@@ -79,12 +81,7 @@ def listSpec (gs : List GSeg) (st fin : Option Int) (impl : String) : String :=
   let within := es.all fun (a, d) => decide (d ≤ 0) || inRun a sortedAll
   -- the ordered / disjoint clause is about recordings whose segments do not overlap in time (hypothesis `WF` of
   -- `concat_ordered`); a recorder fed tracks that are skewed by more than a sample writes overlapping segments
-  let sorted := sortSegs (gs.map (·.seg))
-  let rec wf : List Seg → Bool
-    | a :: b :: r => decide (0 ≤ a.dur) && decide (a.start + a.dur ≤ b.start) && wf (b :: r)
-    | [a] => decide (0 ≤ a.dur)
-    | [] => true
-  if wf sorted && !ordered es then "FAIL list spans overlap or are out of order"
+  if wf0 && !ordered es then "FAIL list spans overlap or are out of order"
   else if !inWin then "FAIL list span not clipped to the requested interval"
   else if !covered then "FAIL recorded media inside the requested interval is not covered by the list"
   else if !within then "FAIL list span starts where nothing was recorded"
